@@ -50,6 +50,11 @@ BOUNDED = {
         statement="for a valid document the generated classes and their properties do not depend on the order of "
                   "components.schemas (parents after children, forward references, single-reference wrappers)",
         bound="two families of 4 schemas, all 24 orders each"),
+    "reference_strings": dict(
+        unit=P + "properties.schemas:parse_reference_path", where="openapi_python_client/parser/properties/schemas.py",
+        statement="a reference string is accepted only if it is empty or '#' + fragment; the urlparse fact assumed by the deductive "
+                  "contract holds",
+        bound="75 strings: 15 prefixes (relative file, absolute path, host, scheme, query, params, ...) x 5 fragments"),
     "response_type": dict(
         unit="openapi_python_client.parser.openapi:Endpoint.response_type", where="openapi_python_client/parser/openapi.py",
         statement="the return annotation of an operation admits the type of each documented response (it is that type, a Union "
